@@ -48,6 +48,8 @@ def gen(rng, tier):
         spec["remove"] = True  # the absence steps are deleted from the logs afterwards: every level must still add up
     if spec.get("history") is None and spec.get("backward") is None and rng.random() < 0.1:
         spec["getters_first"] = True  # the unfiltered get_*_list helpers are called before the run
+    if spec.get("history") is None and spec.get("backward") is None and not spec.get("getters_first") and rng.random() < 0.06:
+        spec["two_fresh"] = True  # two freshly built projects in one process, each first run with initialize_log_info=False
     if rng.random() < 0.12:
         spec["reload_after"] = True  # ... and the accounting is a property of the logs, also of logs read back from a file
     return spec
@@ -62,7 +64,7 @@ def extra_candidates(spec):
         c = dict(spec)
         c.pop("backward")
         yield c
-    for k_ in ("remove", "reload_after", "getters_first"):
+    for k_ in ("remove", "reload_after", "getters_first", "two_fresh"):
         if spec.get(k_):
             c = dict(spec)
             c.pop(k_)
@@ -174,6 +176,23 @@ def run(spec):
         res = C.base_result(tr)
         res.count("backward_runs")
         steps_t = None
+    elif hist is None and spec.get("two_fresh"):
+        from .. import build as B
+        scen.setup_run(spec.get("seed", 0))
+        cfgk = dict(spec["cfg"], init_log=False)
+        b0 = B.build(spec["model"], spec.get("ranks"))
+        scen.simulate(b0.project, cfgk, want_snap=False)
+        tr = scen.Trace()
+        tr.model, tr.cfg = spec["model"], cfgk
+        tr.built = B.build(spec["model"], spec.get("ranks"))
+        tr.project = tr.built.project
+        tr.absence = set(cfgk.get("absence", []))
+        tr.rec, tr.out = scen.simulate(tr.project, cfgk)
+        tr.ix = tr.rec.ix
+        tr.history, tr.log_offset = None, 0
+        res = C.base_result(tr)
+        res.count("second_fresh_project_keeping_logs")
+        steps_t = [s.t for s in C.full_steps(tr.rec)]
     elif hist is None:
         tr = C.run_forward(spec)
         res = C.base_result(tr)
